@@ -38,6 +38,9 @@ def _is_type_of(node: ast.AST, subject: str) -> bool:
     )
 
 
+FIELDS_OF: Optional[Callable[[str], Optional[List[str]]]] = None  # set by callers that know the class fields
+
+
 def eval_class_test(test: ast.AST, subject: str, K: str, is_sub: Callable[[str, str], bool],
                     resolve: Callable[[ast.AST], Optional[List[str]]] = _class_names) -> Optional[bool]:
     """Truth of `test` when the value of expression `subject` is an instance
@@ -61,6 +64,18 @@ def eval_class_test(test: ast.AST, subject: str, K: str, is_sub: Callable[[str, 
         if cs is None:
             return None
         return any(is_sub(K, c) for c in cs)
+    if isinstance(test, ast.Call) and isinstance(test.func, ast.Name) and test.func.id == "hasattr" and len(test.args) == 2 and FIELDS_OF is not None:
+        if A.unparse(test.args[0]) == subject and isinstance(test.args[1], ast.Constant):
+            fs = FIELDS_OF(K)
+            if fs is not None:
+                return test.args[1].value in fs
+    if isinstance(test, ast.Compare) and len(test.ops) == 1 and isinstance(test.ops[0], (ast.In, ast.NotIn)) and FIELDS_OF is not None:
+        l, r = test.left, test.comparators[0]
+        if isinstance(l, ast.Constant) and isinstance(r, ast.Attribute) and r.attr == "_fields" and A.unparse(r.value) == subject:
+            fs = FIELDS_OF(K)
+            if fs is not None:
+                v = l.value in fs
+                return v if isinstance(test.ops[0], ast.In) else not v
     if isinstance(test, ast.Compare) and len(test.ops) == 1:
         op, l, r = test.ops[0], test.left, test.comparators[0]
         if _is_type_of(r, subject) and not _is_type_of(l, subject):
